@@ -22,7 +22,8 @@ Inductive val :=
 | VTuple (l : list val)
 | VList (l : list val).
 
-Inductive exn := KZeroDiv | KType | KValue | KOverflow | KAttr | KName | KIndex | KSystemExit.
+Inductive exn := KZeroDiv | KType | KValue | KOverflow | KAttr | KName | KIndex | KOther | KSystemExit.
+(* KOther: any other class derived from Exception (only observed, never predicted) *)
 (* every class above except SystemExit derives from Exception *)
 Definition is_exception (k : exn) : bool := match k with KSystemExit => false | _ => true end.
 
@@ -352,12 +353,13 @@ Fixpoint extremum (want : comparison) (best : val) (l : list val) : res val :=
               extremum want (if match c, want with Lt, Lt | Gt, Gt => true | _, _ => false end then x else best) t
   end.
 
-(* stable insertion sort by <; used only when every pair is comparable *)
+(* stable insertion sort by <; used only when every pair is comparable.  x precedes every element
+   of l in the input, so it goes before the first y that is not < x *)
 Fixpoint insert_sorted (x : val) (l : list val) : res (list val) :=
   match l with
   | [] => Val [x]
-  | y :: t => b <- val_lt x y ;;
-              if b then Val (x :: y :: t) else (r <- insert_sorted x t ;; Val (y :: r))
+  | y :: t => b <- val_lt y x ;;
+              if b then (r <- insert_sorted x t ;; Val (y :: r)) else Val (x :: y :: t)
   end.
 Fixpoint isort (l : list val) : res (list val) :=      (* processes from the right: stable *)
   match l with
@@ -498,6 +500,12 @@ Definition call_method (recv : val) (m : string) (args : list val) : res val :=
       else Gap
   | _ => Gap
   end.
+(* the methods above: the only attribute lookups the model knows to succeed *)
+Definition method_known (recv : val) (m : string) : bool :=
+  match recv with
+  | VStr _ => (m =? "upper") || (m =? "lower") || (m =? "join") || (m =? "startswith") || (m =? "endswith")
+  | _ => false
+  end.
 Close Scope string_scope.
 
 (* ---------------- expressions ---------------- *)
@@ -555,9 +563,12 @@ Fixpoint eval (e : expr) : res val :=
               match l with [] => Val [] | (n, x) :: tl => v <- eval x ;; r <- go tl ;; Val ((n, v) :: r) end) kws ;;
       call_builtin_kw f a k
   | EMeth recv m args kws =>
-      a <- (fix go (l : list expr) : res (list val) :=
-              match l with [] => Val [] | x :: tl => v <- eval x ;; r <- go tl ;; Val (v :: r) end) args ;;
-      match kws with [] => call_method recv m a | _ => Gap end
+      (* the attribute is looked up BEFORE the arguments are evaluated *)
+      if method_known recv m then
+        a <- (fix go (l : list expr) : res (list val) :=
+                match l with [] => Val [] | x :: tl => v <- eval x ;; r <- go tl ;; Val (v :: r) end) args ;;
+        match kws with [] => call_method recv m a | _ => Gap end
+      else Gap
   end.
 End Eval.
 
@@ -581,7 +592,7 @@ Fixpoint val_same (a b : val) : bool :=
 Definition exn_eqb (a b : exn) : bool :=
   match a, b with
   | KZeroDiv, KZeroDiv | KType, KType | KValue, KValue | KOverflow, KOverflow | KAttr, KAttr
-  | KName, KName | KIndex, KIndex | KSystemExit, KSystemExit => true
+  | KName, KName | KIndex, KIndex | KOther, KOther | KSystemExit, KSystemExit => true
   | _, _ => false
   end.
 (* observed outcome of CPython: a value, an exception class, or "outside the value domain" *)
